@@ -193,6 +193,10 @@ func init() {
 			Run: func(P *Program, R *Report) { revocationGroupElementsRule(P, R, "C11.k") }},
 		Rule{ID: "C11.l", Explain: "the by-name lookups through which the proof machinery reads the secrets, randomisers, responses and bases of the non-revocation proof (proofCommit.Secret/Randomizer/Base, proof.ProofResult, witness.Secret/Randomizer, accumulator.Base) answer each name with that name's own value: every return is the map lookup under the requested name, or - under a test name == k - the value tabled for k; every tabled name is answered; anything else returns nil. (A lookup that answers \"delta\" with beta's randomiser is used consistently by prover commitment and response, so every proof still verifies, while two responses share one randomiser.)",
 			Run: func(P *Program, R *Report) { lookupFaithfulRule(P, R, "C11.l", revocationLookups) }},
+		Rule{ID: "C11.m", Explain: "the accumulator a non-revocation proof is verified against is authentic: SignedAccumulator.UnmarshalVerify returns (and caches) an accumulator only after the key counter matched and the signature verified, each result inspected before it is overwritten (the obligations of C10.b, same rule; the open finding K1 stays listed under C10.b).",
+			Run: func(P *Program, R *Report) {
+				sharedRule(P, R, "C10", "C10.b", "C11.m", func(c string) bool { return !strings.Contains(c, "memo-ignores-pk-and-data") })
+			}},
 	)
 }
 
